@@ -257,7 +257,13 @@ def handle_stream(E):
     r = E.call(E.getattr(sc, 'handle_stream'), [frame])
     E.cover('handled')
     present = z3.Select(has0, I(s))
-    E.prove('dispatch:returns_presence', B(r) == present if not isinstance(r, bool) else (present if r else z3.Not(present)))
+    if isinstance(r, bool):
+        E.prove('dispatch:returns_presence', present if r else z3.Not(present))
+    elif isinstance(r, SBool):
+        E.prove('dispatch:returns_presence', B(r) == present)
+    else:
+        E.prove('dispatch:returns_presence[result must be a bool]', False)
+        return
     if r is True:
         E.prove('dispatch:exactly_one_delivery', len(log.calls) == 1)
         c = log.calls[0]
